@@ -11,7 +11,7 @@ RULE = ("Generated programs (1-4 threads + main, all four flavors) mixing read-s
         "call_rcu); every callback has run at the end (else deadlock/stuck/hang). Non-trivial: a callback had to wait for a section open at its "
         "call_rcu(), or an enqueue woke a sleeping helper.  Up to 2 injected futex faults per case (k-th blocking FUTEX_WAIT returns spuriously or with EINTR). distinct = distinct case text.")
 ASSUMPTIONS = G.E1_ASSUMPTIONS + ["bounded: <=4 threads + main, <=12 ops per thread, chain depth <=1, <=2 simulated CPUs"]
-EXAMPLES = {"quick": 200, "thorough": 4000}
+EXAMPLES = {"quick": 360, "thorough": 4000}
 example = C.make_example("callrcu")
 judge = C.make_judge(("callback", "object", "heap", "free"), lambda text, res: G.flag(res, 0) or G.flag(res, 49))
 confirm = C.confirm
